@@ -11,7 +11,7 @@ from harness.core import cfg_text, Machinery, run_tlc
 from harness.drivers import packet as P
 
 BASE = {"SeqMod": 4, "MaxSwitch": 1, "MaxChunk": 4, "Stricts": "@{TRUE, FALSE}", "Zlibs": "@{TRUE, FALSE}", "Mutations": set(),
-        "Modes": {"classic", "etm"}, "Partial": False}
+        "Modes": {"classic", "etm"}, "Partial": False, "SThreads": set()}
 ALL_MODES = {"classic", "etm", "aead"}
 INV = ["TypeOK", "PrefixOnly", "NoAlien", "AllDelivered", "NeverFailsHonest", "Caught"]
 # receiver without MAC check / MAC without the sequence number / "MAC compared after decryption" decided in an earlier epoch
